@@ -29,14 +29,17 @@ let split_ids s = if s = "." || s = "" then [] else List.map n_of_string (split_
 
 let fmt_snapshot (s : snapshot) =
   if s.ss_index = N0 then "-" else
-  Printf.sprintf "%s/%s/%s/%s/%s/%s/%s/%s" (sn s.ss_index) (sn s.ss_term) (join_ids s.ss_addrs)
-    (join_ids s.ss_nonvotings) (join_ids s.ss_witnesses) (b2i s.ss_witness) (b2i s.ss_dummy) (b2i s.ss_has_file)
+  Printf.sprintf "%s/%s/%s/%s/%s/%s/%s/%s/%s" (sn s.ss_index) (sn s.ss_term) (join_ids s.ss_addrs)
+    (join_ids s.ss_nonvotings) (join_ids s.ss_witnesses) (b2i s.ss_witness) (b2i s.ss_dummy) (b2i s.ss_has_file) (sn s.ss_ccid)
 let parse_snapshot t =
   if t = "-" then empty_snapshot else
   match split_on '/' t with
+  | [i; tm; a; nv; w; wi; d; f; cc] ->
+    { ss_index = n_of_string i; ss_term = n_of_string tm; ss_addrs = split_ids a; ss_nonvotings = split_ids nv;
+      ss_witnesses = split_ids w; ss_witness = (wi = "1"); ss_dummy = (d = "1"); ss_has_file = (f = "1"); ss_ccid = n_of_string cc }
   | [i; tm; a; nv; w; wi; d; f] ->
     { ss_index = n_of_string i; ss_term = n_of_string tm; ss_addrs = split_ids a; ss_nonvotings = split_ids nv;
-      ss_witnesses = split_ids w; ss_witness = (wi = "1"); ss_dummy = (d = "1"); ss_has_file = (f = "1") }
+      ss_witnesses = split_ids w; ss_witness = (wi = "1"); ss_dummy = (d = "1"); ss_has_file = (f = "1"); ss_ccid = N0 }
   | _ -> failwith ("bad snapshot " ^ t)
 
 let replace_char a b s = String.map (fun c -> if c = a then b else c) s
